@@ -419,6 +419,12 @@ func (c10) Gen(r *rand.Rand, tier string, i int) any {
 		// ones it only writes itself), with right and wrong argument counts, bound rows shorter and longer than
 		// the arity, inclusion constraints; followed by facts and rules for the declared predicate
 		text := c10DeclUnit(r)
+		if r.Intn(3) == 0 {
+			text = c10LatticeUnit(r)
+			if r.Intn(4) > 0 {
+				return c10Case{Kind: "source", Input: []byte(text), Via: "lattice-unit"}
+			}
+		}
 		if r.Intn(2) == 0 {
 			return c10Case{Kind: "source", Input: []byte(text), Via: "declaration-unit"}
 		}
@@ -557,6 +563,67 @@ var c10BoundTypes = []string{"/any", "/number", "/string", "/name", "/a", "/a/b"
 	"fn:Fun(/number, /number)", "fn:Rel(/number)", "fn:Struct(fn:opt())", "fn:Struct(fn:opt(/a))", "fn:Struct(/a)", "fn:Struct(/a, /number, /b)", "fn:Struct(fn:opt(/a, /number, /b))", "fn:Map(/string)", ".Map</string>", ".Pair</number>", ".List<>", ".Struct</a: .List<>>", ".Map<>", ".Pair<>", ".Singleton<>", ".Option<>", ".List</number, /string>", ".Pair</a, /b, /c>", ".Map</string>", ".Pair</number>", ".List<>", ".Union<>", ".Tuple</number>",
 	".List<.Pair</number>>", ".Map</string, .List<>>",
 	"fn:opt(/a, /number)", "fn:TaggedUnion(/kind)", "fn:TaggedUnion()", "fn:Singleton()", "fn:Singleton(1, 2)", "fn:Tuple()", "fn:Union(fn:Union())", "fn:List(fn:opt(/a, /b))", "X", "1", "\"s\"", "fn:plus(1, 2)", "/time", "/duration", "/float64", "/bytes", "fn:TaggedUnion(/kind, /a, fn:Struct(/f, /number))"}
+
+// c10LatticeUnit: a predicate declared with a functional dependency and a merge predicate, the merge predicate declared
+// deferred with a mode, rules that derive two values for one key so that the merge really runs; the descriptor
+// arguments are drawn from a pool that also holds column lists that are too long, repeat a column, are empty or name
+// a column that does not exist, merge predicates of the wrong arity and modes of the wrong length.
+func c10LatticeUnit(r *rand.Rand) string {
+	pick := func(xs ...string) string { return xs[r.Intn(len(xs))] }
+	ar := 2 + r.Intn(2)
+	vars := []string{"K", "V", "W"}[:ar]
+	var sb strings.Builder
+	src := pick("[K]", "[K]", "[K]", "[K, K, K]", "[]", "[V]", "[K, V]", "[Q]", "K", "[K, K]")
+	tgt := pick("[V]", "[V]", "[V]", "[K, V]", "[]", "[K]", "[Q]", "[V, V]", "V")
+	mt := pick(tgt, tgt, "[V]", "[K, V]", "[V, W]", "[]")
+	fmt.Fprintf(&sb, "Decl lv(%s) descr [fundep(%s, %s), merge(%s, 'lm')].\n", strings.Join(vars, ", "), src, tgt, mt)
+	mar := pick("3", "3", "3", "5", "2", "4", "1")
+	margs := map[string]string{"1": "A", "2": "A, B", "3": "A, B, C", "4": "A, B, C, D", "5": "A, B, C, D, E"}[mar]
+	mode := pick("mode('+', '+', '-')", "mode('+', '+', '-')", "mode('+', '+', '+', '+', '-')", "mode('+', '-')", "mode('-', '-', '-')", "mode('+', '+', '-', '-')", "")
+	descr := "deferred()"
+	if mode != "" {
+		descr = mode + ", deferred()"
+	}
+	if r.Intn(6) == 0 {
+		descr = mode // not deferred
+	}
+	if descr != "" {
+		fmt.Fprintf(&sb, "Decl lm(%s) descr [%s].\n", margs, descr)
+	}
+	switch mar {
+	case "3":
+		switch r.Intn(6) {
+		case 0:
+			sb.WriteString("lm(A, B, C) :- lm(A, B, C).\n") // calls itself with the same arguments
+		case 1:
+			sb.WriteString("lm(A, B, C) :- A < B, lm(B, A, C).\nlm(A, B, C) :- B <= A, lm(B, A, C).\n")
+		default:
+			sb.WriteString("lm(A, B, C) :- A < B, C = B.\nlm(A, B, C) :- B <= A, C = A.\n")
+		}
+	case "5":
+		sb.WriteString("lm(A, B, C, D, E) :- A < C, E = C.\nlm(A, B, C, D, E) :- C <= A, E = A.\n")
+	case "2":
+		sb.WriteString("lm(A, B) :- A < 100, B = A.\n")
+	case "4":
+		sb.WriteString("lm(A, B, C, D) :- A < B, C = B, D = A.\n")
+	default:
+		sb.WriteString("lm(A) :- A < 3.\n")
+	}
+	sb.WriteString("lsrc(/a, 1). lsrc(/a, 2). lsrc(/b, 5). lsrc(/a, 0).\n")
+	switch ar {
+	case 2:
+		sb.WriteString("lv(K, V) :- lsrc(K, V).\n")
+		if r.Intn(2) == 0 {
+			sb.WriteString("lv(K, W) :- lv(K, V), V < 4 |> let W = fn:plus(V, 1).\n")
+		}
+	default:
+		sb.WriteString("lv(K, V, W) :- lsrc(K, V), lsrc(K, W).\n")
+	}
+	if r.Intn(3) == 0 {
+		sb.WriteString("luse(K) :- lv(" + strings.Join(vars, ", ") + ").\n")
+	}
+	return sb.String()
+}
 
 func c10DeclUnit(r *rand.Rand) string {
 	ar := r.Intn(4)
